@@ -52,7 +52,7 @@ def run(ctx):
 
     if ctx.replay is not None:
         syn = [ctx.replay] if ctx.replay.get("synthetic") else []
-        cfgs = [] if (ctx.replay.get("synthetic") or "singleton_scenario" in ctx.replay) else [ctx.replay]
+        cfgs = [] if (ctx.replay.get("synthetic") or ctx.replay.get("large") or "singleton_scenario" in ctx.replay) else [ctx.replay]
     else:
         syn = [c for c in ctx.corpus if c.get("synthetic")]
         for _ in range(120 if ctx.quick() else 1500):
@@ -97,6 +97,36 @@ def run(ctx):
             ctx.violation("impl-violation", "statistics helper changed membership / returned its input", c, {"site": "stats-helper"})
         ctx.count("synthetic_biased" if c["biased"] else "synthetic_unbiased")
         ctx.case(("syn", c["d"], tuple(map(tuple, c["rows"])), tuple(c["members"]), c["biased"]), nontrivial=len(c["members"]) >= 3)
+
+    # ---------------- (a1) LARGE clusters: thousands of windows, member rows sitting exactly on the powers of two at which
+    # blocked / chunked / narrow-counter implementations change course (4096, 8192, 2^15, 2^16 and their multiples)
+    if ctx.replay is None or ctx.replay.get("large"):
+        plans = [ctx.replay] if ctx.replay is not None else \
+            [{"large": True, "T": T_, "d": d_, "frac": fr_, "biased": bool(bi_), "seed": ctx.rng.randrange(2 ** 31)}
+             for (T_, d_, fr_, bi_) in ([(9000, 2, 0.6, 0), (9000, 3, 1.0, 1), (70000, 2, 0.9, 0)] if ctx.quick() else
+                                        [(9000, 2, 0.6, 0), (9000, 3, 1.0, 1), (70000, 2, 0.9, 0), (70000, 4, 0.5, 1),
+                                         (140000, 2, 0.97, 0), (20000, 6, 0.8, 1), (4097, 2, 1.0, 0), (33000, 3, 0.7, 0)])]
+        for c in plans:
+            rs = np.random.RandomState(c["seed"])
+            T_, d_ = c["T"], c["d"]
+            data = rs.randn(T_, d_) @ (np.eye(d_) + 0.3 * rs.randn(d_, d_)) + rs.randn(d_)
+            pick = rs.rand(T_) < c["frac"]
+            for edge in range(4096, T_, 4096):
+                pick[edge] = True               # rows ON the block edges are members; their neighbours are a coin flip
+            members = [int(i) for i in np.nonzero(pick)[0]]
+            data[members[len(members) // 2]] += 40.0        # one far outlier: a row counted twice or dropped shows
+            for edge in range(4096, T_, 4096):
+                data[edge] += 25.0 * rs.randn(d_)
+            cl = model_state.ClusterParameters(member_points=list(members))
+            with warnings.catch_warnings():
+                warnings.simplefilter("ignore")
+                out = cm.update_cluster_member_data_statistics(cl, data, c["biased"])
+            imean, icov = indep_stats(data[members], c["biased"])
+            if not (close_arr(out.stacked_data_mean, imean) and close_arr(np.atleast_2d(out.empirical_covariance), icov)):
+                ctx.violation("impl-violation", f"statistics of a cluster of {len(members)} windows (of {T_}) are not the mean / "
+                              "covariance of the member rows", c, {"site": "stats-helper", "biased": c["biased"], "large": True})
+            ctx.count("large_cluster_statistics")
+            ctx.case(("large", T_, d_, c["frac"], c["biased"]), nontrivial=True)
 
     # ---------------- (a2) two consecutive rounds whose membership differs but whose MEAN is bit-identical
     # (symmetric integer data): the covariance must still be recomputed for the new members
